@@ -74,6 +74,52 @@ CHECKS.append({
     "design_ref": "DESIGN.md section 7, C17",
 })
 
+CHECKS.append({
+    "property_id": "C09",
+    "text": ("Theorem C09_holds (coq/Props/C09.v) over coq/Model/Path.v (LogicalSegment/PortSegment/DataSegment._encode, EPATH.encode, request_path, "
+             "tag_request_path, _find_tag_index; logical type/format bits and port names regenerated from /repo) against the independent strict "
+             "padded-EPATH parser coq/Spec/EPathParser.v (CIP Vol 1 App. C): every logical value 0..2^32-1 of every logical type is emitted with even "
+             "length and parsed back as exactly that type and number (format boundaries are case splits, not samples); every emitted path = word "
+             "count (+ pad byte) + even body read back as exactly the intended segments, and emission fails only with DataError beyond 255 words; "
+             "class/instance/attribute paths always emitted; for EVERY tag AST (program scope, any nesting, any number of indices < 2^32, symbol-"
+             "instance addressing) tag_request_path(render p) reads back as the AST's names and numbers (induction on the member list with "
+             "split/find/int() lemmas); routes over named ports or any port 1..65535 (extended port identifier), slot and IPv4 links. Tie: "
+             "correspondence of the extracted model with the real encoders on grammar-generated and malformed inputs, and the parser applied to "
+             "the bytes the real code emits (incl. driver-level Forward Open / generic_message / get_module_info paths)."),
+    "note": COMMON_NOTE + " C09: closed under the global context. IPv6 link text, non-ASCII digits and attribute=0 are outside the model (stated in the evidence assumptions).",
+    "technique": "Coq proof (parser-of-encoder = identity, induction on paths; arithmetic on format boundaries) + model/implementation correspondence",
+    "design_ref": "DESIGN.md section 7, C09",
+})
+CHECKS.append({
+    "property_id": "C15",
+    "text": ("Theorem C15_holds (coq/Props/C15.v) over coq/Model/ConnPath.v (parse_connection_path, parse_cip_route, slot shortcuts, driver flags; "
+             "port-name table regenerated) against the independent grammar/reference reader coq/Spec/ConnPathGrammar.v: parse_sound (every "
+             "spelling — separators / \\ , per position, port aliases or numbers, slot or dotted-quad links, optional :port — of every well-formed "
+             "route yields the stated host, TCP port and reference route bytes, all CIP ports 1..65535), spellings_agree (identical bytes), "
+             "rejection theorems each universally quantified over its class (odd number of segments, unknown port name, link out of range, "
+             "malformed link, bad slot shortcut, TCP port non-numeric / negative / outside 1..65534, several colons), never_bytes_on_error, "
+             "accepted_is_reference (anything accepted has the reference host/port/bytes wherever the reference defines them); the strict "
+             "converse is proved outside six documented silent zones (accepts_in_grammar_strict_partial; witness h:+80 inside). String lemmas by "
+             "induction. Tie: model/implementation correspondence on grammar strings, rejection-class members, all single-character edits."),
+    "note": COMMON_NOTE + " C15: closed under the global context. ipaddress is modelled as a strict dotted-quad recogniser; host names are opaque; the 4300-digit int() limit is modelled.",
+    "technique": "Coq proof (render/parse soundness and rejection classes by induction on strings) + model/implementation correspondence",
+    "design_ref": "DESIGN.md section 7, C15 and section 10",
+})
+CHECKS.append({
+    "property_id": "C16",
+    "text": ("Theorem C16_holds (coq/Props/C16.v) over coq/Model/Identity.v against the independent field-by-field identity encoder "
+             "coq/Spec/IdentitySpec.v: for EVERY identity with fields in range (vendor/product-type ids known or unknown -> 'UNKNOWN', every "
+             "product name of length 0..255 over Latin-1 as a universally quantified list, every serial < 2^32 as exactly 8 lower-case hex digits "
+             "by arithmetic, revision, status bytes, state, IPv4) list_identity / ListIdentityResponsePacket / get_module_info / get_plc_info / the "
+             "discover response loop (induction on the datagram list) return exactly the device's values; identity encode-decode is the identity "
+             "on the documented domain. Vendor (1463 rows), product-type and keyswitch tables and the declared struct member lists are regenerated "
+             "from /repo; finite side conditions (unique ids) by vm_compute. Tie: correspondence on ~23k identities/replies per quick run incl. "
+             "truncated and corrupted ones, pure decoders and the real drivers over a canned device."),
+    "note": COMMON_NOTE + " C16: closed under the global context (coqchk passes in the thorough tier). Slice offsets 26/40/42/44 are hand-modelled and tied by correspondence.",
+    "technique": "Coq proof (decode of spec-encode = view, induction on names/datagram lists, arithmetic for hex) + model/implementation correspondence",
+    "design_ref": "DESIGN.md section 7, C16",
+})
+
 _PENDING = "vertical not yet built in this session (see DESIGN.md section 9 staging); decided by Coq proof + correspondence when it lands"
 _CLAIMED = {c["property_id"] for c in CHECKS}
 NOT_APPLICABLE = [{"property_id": f"C{i:02d}", "reason": _PENDING} for i in range(1, 20) if f"C{i:02d}" not in _CLAIMED]
